@@ -312,12 +312,13 @@ def o7b_structures(tier):
                     for mapping in ("jw", "bk"):
                         if tier == "quick" and mapping == "bk" and (steps == 3 or order == 2):
                             continue
-                        sts.append({"terms": combo, "steps": steps, "order": order, "time": tmode, "mapping": mapping})
+                        for sign in ("pos", "neg"):
+                            sts.append({"terms": combo, "steps": steps, "order": order, "time": tmode, "mapping": mapping, "sign": sign})
     return sts
 
 
 @contract("C06", "O7b.trotterize.fermionic_operator", level="S", structures=o7b_structures, max_paths=200,
-          native_samples=lambda st, rnd, tier: [{f"c{j}": rnd.choice([rnd.uniform(0.2, 2), rnd.uniform(-2, -0.2)]) for j in range(4)} for _ in range(2)],
+          native_samples=lambda st, rnd, tier: [{f"c{j}": (1 if st["sign"] == "pos" else -1) * rnd.uniform(0.2, 2) for j in range(4)} for _ in range(2)],
           targets=[(AU, "trotterize"), (AU, "get_exponentiated_qubit_operator_circuit"), ("tangelo/toolboxes/qubit_mappings/mapping_transform.py", "fermion_to_qubit_mapping")])
 def o7b(h, st):
     """fermionic input: hopping pairs (Hermitian, same coefficient and time for a term and its conjugate) and number operators on disjoint modes commute after
@@ -345,7 +346,11 @@ def o7b(h, st):
             dn = (tgroup[gk] / steps / (2 if order == 2 else 1)).denominator
             # hopping a^0 a_1 + h.c. maps to c/2 (XX + YY): the half needs one more factor 2
             cs[gk] = h.real(f"c{gk}", angle_denom=dn * 2)
-            h.assume(abs(cs[gk]) > 0.05)
+            # one sign for all coefficients: sums of identity contributions then stay away from openfermion's 1e-8 'is small' threshold,
+            # below which it drops a term (an artefact of its tolerance, not of Tangelo)
+            sg = 1 if st["sign"] == "pos" else -1
+            h.assume(cs[gk] * sg > 0.05)
+            h.assume(cs[gk] * sg < 3)
     op = FermionOperator()
     for i in idx:
         op.terms[FERM_TERMS[i]] = cs[group[i]]
